@@ -242,7 +242,7 @@ func childMain() {
 // ---------- generators ----------
 
 var hostileNames = []string{"t", "a/b/t", "s/a", "d", "s", "a", "b", "a/x", "a/b/y", "l", "l/x", "l2", "l2/x", "../dst-evil/x", "../victim", "nx/../l/x", "nx/../../victim",
-	"/a", "a/", "./a", "a//x", ".", "", "..", "a/../b", "a/../../dst-evil/x", "l/../x", "b/", "/l/x", "x"}
+	"/a", "a/", "./a", "a//x", ".", "", "..", "/", "//", "///", "/.", "a/../b", "a/../../dst-evil/x", "l/../x", "b/", "/l/x", "x"}
 var hostileTargets = []string{"../..", "s/a/..", "a/b/t/..", "../../etc/cfg", "a", "b", ".", "..", "a/..", "../dst-evil", "../victim", "a/../victim", "/w/victim", "/secret", "l", "l2", "a/b", "../dst", "../dst/a", "nx", "./b", "a/../../dst-evil", "../dst-evil/x"}
 
 func genHostileEntries(rng *Rng) []EntrySpec {
@@ -293,6 +293,31 @@ func genHostileTemplate(rng *Rng) []EntrySpec {
 		es := []EntrySpec{mk(rng.Pick([]string{"a/b/t", "s/a/t"}), "2", t), mk(rng.Pick([]string{"t", "a/cfg", "x"}), "2", t)}
 		if rng.Chance(30) {
 			es = append(es, mk("t/w", "0", ""))
+		}
+		return es
+	}
+	if rng.Chance(20) {
+		// an entry spelled through an accepted link: the raw name and the cleaned name part ways
+		d := rng.Pick([]string{"s", "a/b"})
+		up := d + "/up"
+		es := []EntrySpec{mk(d+"/", "5", ""), mk(up, "2", rng.Pick([]string{"..", "../.."})),
+			mk(up+"/../"+rng.Pick([]string{"escaped", "victim", "../victim"}), rng.Pick([]string{"0", "5", "2"}), "../..")}
+		if rng.Chance(40) {
+			es = append(es, mk(up+"/../x/y", "0", ""))
+		}
+		return es
+	}
+	if rng.Chance(20) {
+		// a link to the directory itself (or up and back), a real directory at its target, and an
+		// entry named through the link into that directory
+		lks := [][2]string{{"a", "."}, {"x/y/a", "../.."}, {"l", "s/.."}}
+		lk := lks[rng.Intn(len(lks))]
+		es := []EntrySpec{mk("sub/", "5", ""), mk(lk[0], "2", lk[1]), mk(lk[0]+"/sub/l", rng.Pick([]string{"2", "2", "0"}), rng.Pick([]string{"../..", "../../victim"}))}
+		switch rng.Intn(3) {
+		case 0:
+			es[0], es[1] = es[1], es[0]
+		case 1:
+			es = append(es[1:2], es[0], es[2])
 		}
 		return es
 	}
